@@ -36,6 +36,10 @@ CHECKS = {
    text="Reclaim.tla models heartbeats, records, time and the two periodic passes; TLC checks 'records of a live instance are never removed' (action property) and 'nothing is left of an instance silent for more than 35 s' (invariant) and simulates histories (joins, reports, acquires, silences of 1-40 s, come-backs); they are replayed on a REAL limiter server whose real 1 s / 30 s cleanup loops run on virtual time; observations of the recorded conditions and of the free global-count capacity (a probe asking for the whole limit) are trace-validated by TLC against the reclaim L0.",
    note="Live = every heartbeat gap <= 3 s; dead = silent > 3+30+1+1 s; in between either outcome accepted; no leadership change inside these histories.",
    technique="TLC invariant/action property on the timed reclaim model + simulated histories replayed into the real server on virtual time + TLC trace validation"),
+ "C19": dict(cat="model_checking", design="4/C19",
+   text="K8sStore.tla models the API-backed store in both modes (write-through / periodic with a two-phase background sync), API outcomes, graceful stop, crash between any two steps and a new leader's load, with the durability invariants (acknowledged=>persisted, deleted stays deleted, stop flushes, load exact, nothing of a foreign shard); TLC checks them on the repaired design (and refutes the pinned variant) and simulates histories; they are replayed on the REAL store against the fake clientset behind a gate decorator that injects not-found/conflict/transient outcomes, holds the background sync at its first write and kills the store before an operation or at its 1st/2nd API call; acknowledgements and the API content after every step are trace-validated by TLC.",
+   note="Write-through histories run on virtual time; periodic-mode histories in real time (mutex contention is invisible to synctest); driver operations are sequential, the concurrent actor is the store's own sync.",
+   technique="TLC invariants on the store model + simulated fault/crash histories replayed through a gated fake API + TLC trace validation"),
 }
 
 NOT_YET = {}
